@@ -36,7 +36,14 @@ def mk_conn(hw, budget, transpile, outcomes):
     return conn, sock, ex
 
 
-def menu(live, limit):
+def menu(live, limit, alphabet=None):
+    opts = _menu(live, limit)
+    if alphabet is not None:
+        opts = [o for o in opts if o[0] in alphabet]
+    return opts
+
+
+def _menu(live, limit):
     opts = []
     if len(live) < limit:
         opts.append(("new",))
@@ -53,6 +60,11 @@ def menu(live, limit):
             opts.append(("create_keep", n))
             opts.append(("recv_keep", n))
     if len(live) + 1 <= limit:
+        opts.append(("recv_keep_fid", 1))
+        opts.append(("create_keep_fid", 1))
+    if len(live) + 2 <= limit:
+        opts.append(("recv_keep_fid", 2))
+    if len(live) + 1 <= limit:
         opts.append(("keep_seq", 2))
         opts.append(("create_context", 1))
         opts.append(("recv_context_seq", 2))
@@ -67,6 +79,10 @@ def fault_class(e):
         if key in m:
             return name
     return type(e).__name__
+
+
+def retry_in(hist):
+    return any(h[0] in ("recv_keep_fid", "create_keep_fid") for h in hist)
 
 
 def family(hist):
@@ -104,21 +120,24 @@ def make_body(spec, falsify=False):
             except (PathAbort, Infeasible):
                 raise
             except Exception as e:  # noqa
-                return [Ob("subroutine_executes_without_fault", False, dict(site0, family=family(hist), fault=fault_class(e)),
+                return [Ob("subroutine_executes_without_fault", False, dict(site0, family=family(hist), fault=fault_class(e), retry=retry_in(hist)),
                            info={"history": [list(h) for h in hist], "error": f"{type(e).__name__}: {str(e)[:200]}"})]
             sdk_ids = sorted(q.qubit_id for q in conn.active_qubits)
             ctrl_ids = sorted(v for v, p in enumerate(ex._qubit_unit_modules[APP]) if p is not None)
             want = sorted(q.qubit_id for q in live)
-            out = [Ob("active_qubits_equal_controller_allocation", sdk_ids == ctrl_ids, dict(site0, family=family(hist)),
+            out = [Ob("active_qubits_equal_controller_allocation", sdk_ids == ctrl_ids, dict(site0, family=family(hist), retry=retry_in(hist)),
                       info={"history": [list(h) for h in hist], "sdk": sdk_ids, "controller": ctrl_ids}),
-                   Ob("host_handles_equal_controller_allocation", want == ctrl_ids, dict(site0, family=family(hist)),
+                   Ob("host_handles_equal_controller_allocation", want == ctrl_ids, dict(site0, family=family(hist), retry=retry_in(hist)),
                       info={"history": [list(h) for h in hist], "alive_handles": want, "controller": ctrl_ids})]
             return out
 
         for step in range(depth):
-            opts = menu(live, limit)
-            if step == 0 and first is not None:
-                op = tuple(first)
+            opts = menu(live, limit, spec.get("alphabet"))
+            if not opts:
+                break
+            prefix = spec.get("prefix") or ([first] if first is not None else [])
+            if step < len(prefix):
+                op = tuple(prefix[step])
                 if op not in opts:
                     return []
             else:
@@ -132,7 +151,7 @@ def make_body(spec, falsify=False):
                     lowest = min(i for i in range(64) if i not in used)
                     live.append(q)
                     # the SDK may relocate other handles on NV; compare after the call
-                    obs.append(Ob("freed_id_is_reused", q.qubit_id == lowest or hw == "nv", dict(site0, family=family(hist)),
+                    obs.append(Ob("freed_id_is_reused", q.qubit_id == lowest or hw == "nv", dict(site0, family=family(hist), retry=retry_in(hist)),
                                   info={"history": [list(h) for h in hist], "got": q.qubit_id, "lowest_free": lowest}))
                 elif k == "gate":
                     live[op[1]].H()
@@ -156,6 +175,17 @@ def make_body(spec, falsify=False):
                     for i in range(n):
                         ex.deliveries.append(ok_k(ex, creator=(k == "create_keep"), purpose_id=0, remote_node_id=1,
                                                   bell_state=(inp.int(f"bell{step}_{i}", 0, 3) if n == 1 and step < 2 else 0)))
+                elif k in ("recv_keep_fid", "create_keep_fid"):
+                    # generation with a fidelity (= duration) limit: the request is repeated (at most twice here) while the reported
+                    # duration of the last pair is above the limit; the duration is symbolic, so both outcomes are explored
+                    n = op[1]
+                    creator = k == "create_keep_fid"
+                    qs = getattr(sock, "create_keep" if creator else "recv_keep")(number=n, min_fidelity_all_at_end=80, max_tries=2)
+                    live += list(qs)
+                    for attempt in range(2):
+                        for i in range(n):
+                            dur = inp.int(f"dur{step}_{attempt}_{i}", 0, 60000) if i == n - 1 and attempt == 0 else 0
+                            ex.deliveries.append(ok_k(ex, creator=creator, purpose_id=0, remote_node_id=1, goodness=dur, if_outstanding=attempt == 1))
                 elif k == "keep_seq":
                     sock.create_keep(number=op[1], sequential=True, post_routine=post)
                     for i in range(op[1]):
@@ -173,7 +203,7 @@ def make_body(spec, falsify=False):
             except (PathAbort, Infeasible):
                 raise
             except Exception as e:  # noqa
-                obs.append(Ob("sdk_builds_within_budget", False, dict(site0, family=family(hist)),
+                obs.append(Ob("sdk_builds_within_budget", False, dict(site0, family=family(hist), retry=retry_in(hist)),
                               info={"history": [list(h) for h in hist], "error": f"{type(e).__name__}: {str(e)[:200]}"}))
                 return obs
         obs += do_flush(depth)
@@ -225,8 +255,27 @@ def main(tier, seed):
         limit = budget - 1 if hw == "nv" else budget
         for op in menu([], limit):
             specs.append({"hw": hw, "budget": budget, "transpile": tr, "depth": depth, "first": list(op), "eager": True})
-    rep.bounds = [f"all histories of {depth} operations (new qubit, H, reset, measure in place / destructively, free, flush, create_keep(1..2), "
-                  "recv_keep(1..2), sequential create_keep with post routine, create_context, sequential recv_context) with a final flush, "
+    # deeper histories over a small alphabet (allocation / relocation logic on NV needs gaps in the id space: create, create,
+    # measure the second, create, measure the first, ...); partitioned by their first three operations
+    deep_depth = 7 if tier == "thorough" else 6
+    alpha = ["new", "meas", "gate", "flush"]
+
+    def prefixes(limit, k):
+        out = [([], 0)]
+        for _ in range(k):
+            nxt = []
+            for pre, nl in out:
+                for op in menu([None] * nl, limit, alpha):
+                    nxt.append((pre + [list(op)], nl + (1 if op[0] == "new" else -1 if op[0] == "meas" else 0)))
+            out = nxt
+        return [p_ for p_, _ in out]
+    for hw, budget, tr in ((("nv", 3, False), ("nv", 4, False), ("nv", 4, True), ("generic", 3, False)) if tier == "thorough" else (("nv", 3, False), ("nv", 4, True))):
+        limit = budget - 1 if hw == "nv" else budget
+        for pre in prefixes(limit, 3):
+            specs.append({"hw": hw, "budget": budget, "transpile": tr, "depth": deep_depth, "prefix": pre, "alphabet": alpha})
+    rep.bounds = [f"all histories of {deep_depth} operations over the alphabet {alpha} (NV configurations: relocation chains with gaps in the id space)",
+                  f"all histories of {depth} operations (new qubit, H, reset, measure in place / destructively, free, flush, create_keep(1..2), "
+                  "recv_keep(1..2), create_keep / recv_keep with min_fidelity_all_at_end (retry loop, symbolic duration), sequential create_keep with post routine, create_context, sequential recv_context) with a final flush, "
                   f"for qubit budgets {list(budgets)} (the statement's 1..5: budgets not listed are outside this tier), generic hardware, NV hardware config, NV config + NVSubroutineTranspiler",
                   "the host keeps at most budget (NV: budget-1) qubits alive; measurement outcomes and Bell indices symbolic",
                   "responses delivered lazily (one per wait poll) and, for the first three configurations, eagerly (all pairs right after the request instruction)"]
